@@ -215,15 +215,21 @@ func (u *uploader) ListParts(bucket, object string, uploadID UploadID, marker in
 		StorageClass:     "STANDARD", // FIXME
 	}
 
+	if marker < 0 {
+		marker = 0
+	}
+
+	// Parts are listed by their true number, starting after the marker; the
+	// marker may lie beyond the highest uploaded part.
 	var cnt int64
-	for partNumber, part := range mpu.parts[marker:] {
+	for partNumber := marker + 1; partNumber > 0 && partNumber < len(mpu.parts); partNumber++ {
+		part := mpu.parts[partNumber]
 		if part == nil {
 			continue
 		}
 
 		if cnt >= limit {
 			result.IsTruncated = true
-			result.NextPartNumberMarker = partNumber
 			break
 		}
 
@@ -233,6 +239,8 @@ func (u *uploader) ListParts(bucket, object string, uploadID UploadID, marker in
 			PartNumber:   partNumber,
 			LastModified: part.LastModified,
 		})
+		// the value to pass as part-number-marker to continue after this page
+		result.NextPartNumberMarker = partNumber
 
 		cnt++
 	}
